@@ -261,6 +261,30 @@ def main():
                 continue
             res['predictions_checked'] += n; res['violations'] += v; res['configs'] += 1
             dist['corpus'] = dist.get('corpus', 0) + 1
+    if a.mode != 'replay' and a.prop == 'C05' and not res['violations']:
+        # shipped configurations whose r_singularity profile holds radii and the sentinel side by side, written out as explicit inputs and moved to origins
+        # inside a sentinel run, just after it and far from it (anything that post-processes the profile along the grid must be periodic)
+        qsc = import_qsc()
+        for name in ('precise QH', 'precise QH+well', '2022 QH nfp2'):
+            try:
+                import logging
+                logging.disable(logging.CRITICAL)
+                qp = qsc.Qsc.from_paper(name, nphi=31)
+                logging.disable(logging.NOTSET)
+                cp = dict(rc=[float(x) for x in qp.rc], zs=[float(x) for x in qp.zs], rs=[float(x) for x in qp.rs], zc=[float(x) for x in qp.zc], nfp=int(qp.nfp),
+                          etabar=float(qp.etabar), sigma0=float(qp.sigma0), B0=float(qp.B0), I2=float(qp.I2), sG=int(qp.sG), spsi=int(qp.spsi), nphi=int(qp.nphi),
+                          order=qp.order, B2s=float(qp.B2s), B2c=float(qp.B2c), p2=float(qp.p2))
+                for cpv in (cp, dict(cp, sigma0=0.08)):          # as shipped (stellarator-symmetric: the two ends of a sentinel run are mirror images) and with sigma0 != 0
+                    q_, m_ = build(cpv, shear=False)
+                    if any('Newton solve did not get close' in m for m in m_):
+                        continue
+                    for k2 in (3, 8, 15, 28):
+                        vv, nn = predict_shift(cpv, k2, q0=q_)
+                        res['predictions_checked'] += nn; res['violations'] += vv
+                res['configs'] += 1; dist['preset-with-sentinel'] = dist.get('preset-with-sentinel', 0) + 1
+            except Exception:
+                logging.disable(logging.NOTSET)
+                continue
     if a.mode == 'replay':
         rep = json.load(open(a.file))
         f = rep.get('failing') or {}
